@@ -89,6 +89,13 @@ func (r *c07CtxResolver) LookupTXT(ctx context.Context, name string) ([]string, 
 
 var c07VerifyCount int
 
+// c07Several: the generator wrote a single From field with two or more addresses (shape "<n>", or
+// "m<n>" when the address parser refuses one of the display names).
+func c07Several(shape string) bool {
+	n, err := strconv.Atoi(strings.TrimPrefix(shape, "m"))
+	return err == nil && n >= 2
+}
+
 // one case against the real Verifier
 func c07Verify(out *vh.Out, c *vdmarc.Case, seedOK bool) {
 	hdr, err := textproto.ReadHeader(bufio.NewReader(strings.NewReader(c.HdrRaw)))
@@ -133,6 +140,8 @@ func c07Verify(out *vh.Out, c *vdmarc.Case, seedOK bool) {
 	if e.CheckPass && pass != e.Pass {
 		sig := "C07/pass-without-alignment"
 		switch {
+		case c07Several(c.Shape):
+			sig = "C07/pass-with-several-author-addresses"
 		case c.Shape != "1":
 			sig = "C07/pass-without-single-author"
 		case e.Pass:
@@ -303,7 +312,9 @@ func TestVerifC07Extract(t *testing.T) {
 		}
 		out.Corr(op, "ok "+vdmarc.Tok(d))
 		out.Stat("extract.ok")
-		if shape != "1" {
+		if c07Several(shape) {
+			out.Violation("C07/author-from-several-addresses", op, fmt.Sprintf("header shape %s yields author domain %q", shape, d))
+		} else if shape != "1" {
 			out.Violation("C07/author-from-non-single-header", op, fmt.Sprintf("header shape %s yields author domain %q", shape, d))
 		} else if d != author {
 			out.Violation("C07/wrong-author-domain", op, fmt.Sprintf("author domain %q, expected %q", d, author))
